@@ -1,0 +1,44 @@
+//go:build verif
+// +build verif
+
+// Contracts for the deductive verifier in /verif (govc). Comment-only: no executable code.
+// Every operation of a shard's limit store counts as touching the shard's quota/acquire state (ghost counter storeops).
+// ASSUMED: a LimitStore modifies only its own internal state, which is disjoint from the rate limiter's fields and maps.
+package _interface
+
+//@ interface (LimitStore).Get(s, cluster, name) props C13
+//@   modifies storeops
+//@   ensures storeops == old(storeops) + 1
+//@ interface (LimitStore).Save(s, cluster, condition) props C13
+//@   modifies storeops
+//@   ensures storeops == old(storeops) + 1
+//@ interface (LimitStore).Delete(s, cluster, name) props C13
+//@   modifies storeops
+//@   ensures storeops == old(storeops) + 1
+//@ interface (LimitStore).DeleteUpstream(s, cluster) props C13
+//@   modifies storeops
+//@   ensures storeops == old(storeops) + 1
+//@ interface (LimitStore).ListUpstream(s, cluster) props C13
+//@   modifies storeops
+//@   ensures storeops == old(storeops) + 1
+//@ interface (LimitStore).List(s, selector) props C13
+//@   modifies storeops
+//@   ensures storeops == old(storeops) + 1
+//@ interface (LimitStore).GetFlowControl(s, cluster, name) props C13
+//@   modifies storeops
+//@   ensures storeops == old(storeops) + 1
+//@ interface (LimitStore).SyncFlowControl(s, cluster, fc) props C13
+//@   modifies storeops
+//@   ensures storeops == old(storeops) + 1
+//@ interface (LimitStore).DeleteInstanceState(s, instance) props C13
+//@   modifies storeops
+//@   ensures storeops == old(storeops) + 1
+//@ interface (LimitStore).Load(s) props C13
+//@   modifies storeops
+//@   ensures storeops == old(storeops) + 1
+//@ interface (LimitStore).Flush(s) props C13
+//@   modifies storeops
+//@   ensures storeops == old(storeops) + 1
+//@ interface (LimitStore).Stop(s) props C13
+//@   modifies storeops
+//@   ensures storeops == old(storeops) + 1
